@@ -18,7 +18,14 @@ RULE = ("seeded P-code generator (Watch/Alarm/Block/Macro, Wait, thresholds, tim
         "of 1-6 ticks, Simulate) x scripted FT01 trajectory; a reference run lists the run-log items before every tick; "
         "every (tick, item index, cancel|force) is a candidate request, sampled with p=0.6 when the item offers that "
         "request and p=0.12 when it does not (thorough: 1.0 / 0.25); each sampled request is issued in its own fresh "
-        "run. distinct = (method shape hash, tick, item index, kind); non-trivial = the request was judged by at least "
+        "run. Directed stratum (requests WAITING in the command manager): 2-3 commands - timed/un-timed Pause/Hold of one "
+        "kind, mixed kinds, or a command that raises (invalid Pause/Hold argument, failing UOD exec) plus UOD commands / "
+        "timed Pause/Hold - requested in ONE tick from 2-3 interpreter paths (Watch/Alarm handlers firing together, Watch "
+        "body calling a macro, main path, injected code; main path / injection aligned by trying offsets against the real "
+        "engine until a reference run shows a request that sits in the command manager without having started); cancel at "
+        "EVERY tick of the waiting window on each waiting item, force on them with p=0.5 (thorough 1.0), cancel/force on the "
+        "other command items of the window with p=0.5/0.15 (thorough 1.0/0.3), on all other items sparsely. "
+        "distinct = (method shape hash, tick, item index, kind); non-trivial = the request was judged by at least "
         "one rule (not-offered rule or an effect rule)")
 ASSUMPTIONS = [
     "'offered' = the cancellable/forcible flag of the item in the run log obtained immediately before the request",
@@ -31,16 +38,38 @@ ASSUMPTIONS = [
     "outside Alarm/Macro bodies (re-invocation resets the node, stale handlers of the C02 findings walk the lines twice)",
     "threshold-waiting instructions are not rendered in the run log, so 'forced threshold' cannot be requested "
     "through a run-log item id and is not exercised",
+    "after an accepted cancel of a Pause/Hold item the run is followed until no command and no request of that kind is "
+    "left (at most 90 ticks): the cancelled instance must never be the running command and its record must not get a "
+    "started state after the cancelled one ('never performs its effect afterwards')",
+    "'ends at once' for a cancelled Pause/Hold that shares the state with other commands of its kind: the engine must "
+    "have left Paused/Holding (engine run-state flag) by the end of the tick that the un-cancelled timed commands known "
+    "to the command manager right after the cancel justify - the running one from its observed start, the waiting ones "
+    "one after the other, ceil(duration / tick interval) + 1 ticks each - plus 2 ticks of slack. Not judged when an "
+    "un-timed Pause/Hold of that kind has started or waits (it holds until the operator resumes), nor for Paused after a "
+    "method error (the error pause is not a Pause command)",
+    "'waiting' (request listed by CommandManager.cmd_executing / cmd_queue whose instance has no started state) is read "
+    "from the command manager by the harness for request selection, counters and the mechanism classifier only; no "
+    "oracle depends on it. Force on a waiting Pause/Hold item is a not-offered request (Pause/Hold are never forcible)",
 ]
 REQUIRED = {"requests": 2000, "not_offered_requests": 800, "offered_accepted": 150, "rule_cancel_watch": 5,
-            "rule_cancel_pause_hold": 5, "rule_cancel_uod": 20, "rule_force_watch": 5, "rule_force_wait": 10}
+            "rule_cancel_pause_hold": 5, "rule_cancel_uod": 20, "rule_force_watch": 5, "rule_force_wait": 10,
+            # directed stratum: requests cancelled / forced while they wait in the command manager
+            "directed_methods_with_waiting_requests": 60, "directed_methods_same": 25, "directed_methods_raiser": 10,
+            "directed_methods_mixed": 2, "directed_methods_lane_main": 8, "directed_methods_lane_inject": 8,
+            "directed_methods_lane_macro": 5, "directed_methods_two_requests_waiting_at_once": 4,
+            "waiting_cancel_requests": 250, "waiting_cancel_accepted_pause_hold": 150, "waiting_cancel_accepted_uod": 6,
+            "waiting_cancel_never_started_judged": 160, "waiting_cancel_state_bound_judged": 120,
+            "waiting_cancel_not_offered_judged": 30, "waiting_force_not_offered_judged": 80,
+            "rule_state_bound_with_other_holders": 200}
 
 
 def plan(tier, seed):
     n = 128 if tier == "quick" else 2000
     shards = 16 if tier == "quick" else 50
+    nd = 96 if tier == "quick" else 800         # methods of the directed stratum (requests waiting in the command manager)
     return [{"seed": seed * 1000003 + i, "n": max(1, n // shards), "max_depth": 3 if tier == "quick" else 4,
-             "p_off": 0.6 if tier == "quick" else 1.0, "p_not": 0.12 if tier == "quick" else 0.25}
+             "p_off": 0.6 if tier == "quick" else 1.0, "p_not": 0.12 if tier == "quick" else 0.25,
+             "directed": max(1, nd // shards), "p_dir": 0.5 if tier == "quick" else 1.0}
             for i in range(shards)]
 
 
@@ -87,6 +116,162 @@ def reference_items(m):
     return out
 
 
+# ------------------------------------------------------------------------------------------------
+# directed stratum: requests that WAIT inside the command manager
+#
+# A command request waits (sits in CommandManager.cmd_executing without having started) in two situations:
+#   * engine commands: _execute_internal_command starts a command only when no command of the same name is running, so a
+#     Pause/Hold requested in the tick in which another timed Pause/Hold starts waits until that one has ended
+#     (requests are executed newest first: the LAST one requested in a tick starts, the earlier ones queue behind it);
+#   * any command: execute_commands() aborts its loop when a command raises, so every request that was scheduled in the
+#     same tick BEFORE the raising one has not been looked at yet and starts one tick later.
+# Both need two or three requests in ONE tick, i.e. several interpreter paths reaching a command line together: Watch /
+# Alarm handlers whose conditions become true in the same tick, a Watch body calling a macro, the main path, injected code.
+D_DUR = ("0.3", "0.4", "0.6", "0.9")
+D_COND = ("FT01 > 3 L/h", "FT01 > 5 L/h", "FT01 > 1 L/h", "FT01 > 3 L/h")
+D_RAISERS = ("Set1: x", "SetPlain: y", "Fail", "Hold: -1s", "Pause: 5 x")
+D_UOD = ("Long", "Other", "Short", "Long2", "Drive1")
+
+
+def _d_timed(rnd, kind=None):
+    return f"{kind or rnd.choice(('Pause', 'Hold'))}: {rnd.choice(D_DUR)}s"
+
+
+def gen_directed(rnd: random.Random):
+    """One method of the directed stratum, aligned (by trying offsets against the real engine) so that at least one
+    request waits in the command manager; None if no alignment was found."""
+    fam = rnd.choice(("same", "same", "same", "mixed", "raiser", "raiser", "raiser"))
+    k = rnd.choice((2, 2, 3, 3))
+    if fam == "same":
+        kind = rnd.choice(("Pause", "Hold"))
+        cmds = [_d_timed(rnd, kind) if rnd.random() < 0.8 else kind for _ in range(k)]
+        if all(":" not in c for c in cmds):
+            cmds[rnd.randrange(k)] = _d_timed(rnd, kind)
+    elif fam == "mixed":
+        k = 3
+        cmds = [_d_timed(rnd, "Pause"), _d_timed(rnd, "Hold"), rnd.choice((_d_timed(rnd), rnd.choice(D_UOD)))]
+    else:
+        cmds = [rnd.choice(D_RAISERS)] + [rnd.choice((_d_timed(rnd), rnd.choice(D_UOD), rnd.choice(D_UOD)))
+                                           for _ in range(k - 1)]
+    rnd.shuffle(cmds)
+    # every command gets a lane = an interpreter path of its own
+    lanes = []
+    free = True     # at most one lane needs an offset search (main path or injected code)
+    shape = rnd.choice(("watch", "watch", "watch", "macro", "alarm"))   # handlers of one shape stay in lockstep
+    for c in cmds:
+        t = rnd.choice((shape, shape, shape, shape, shape, "main", "inject", rnd.choice(("watch", "macro", "alarm"))))
+        if t in ("main", "inject"):
+            if not free:
+                t = shape
+            free = False
+        lanes.append(t)
+    pad = rnd.choice((0, 0, 1))
+    pads = [pad + (1 if rnd.random() < 0.1 else 0) for _ in cmds]
+    n = [0]
+
+    def lab():
+        n[0] += 1
+        return f"d{n[0]}"
+
+    head, main, inject_lines = ["Base: s"], [], None
+    for c, t, pd in zip(cmds, lanes, pads):
+        body = [f"Mark: {lab()}" for _ in range(pd)] + [c] + ([f"Mark: {lab()}"] if rnd.random() < 0.4 else [])
+        if t == "watch":
+            head += [f"Watch: {rnd.choice(D_COND)}"] + ["    " + b for b in body]
+        elif t == "alarm":
+            head += [f"Alarm: {rnd.choice(D_COND)}"] + ["    " + b for b in body]
+        elif t == "macro":
+            name = f"M{lab()}"
+            head = [head[0], f"Macro: {name}"] + ["    " + b for b in body] + head[1:]
+            head += [f"Watch: {rnd.choice(D_COND)}", f"    Call macro: {name}"]
+        elif t == "main":
+            main = body
+        else:
+            inject_lines = body
+    tail = [f"Mark: {lab()}", "Wait: 0.5s", f"Mark: {lab()}"]
+    long_n = rnd.choice((2, 3, 4))
+    fail_at = rnd.choice((0, 0, 1))
+    n_head = len(head)
+    cands = list(range(n_head + 4, n_head + 22))
+    rnd.shuffle(cands)
+    if not main and inject_lines is None:
+        cands = cands[:2]
+    for off in cands:
+        step = n_head + 10 if (main or inject_lines is not None) else off
+        traj = [0.0] * step + [6.0] * (200 - step)
+        if "alarm" in lanes and rnd.random() < 0.5:
+            traj = traj[:step + 2] + [0.0] * (198 - step)      # a pulse: the Alarm fires once
+        text_lines = list(head)
+        if main:
+            # the main path reaches its command `off` ticks into the run (every line costs at least two ticks)
+            text_lines += [f"Wait: {max(0, off - n_head - 4) * 0.1 + 0.1:.1f}s"] + main
+        text_lines += tail
+        m = {"text": "\n".join(text_lines) + "\n", "traj": traj, "long_n": long_n, "fail_at": fail_at,
+             "injects": [[off, "\n".join(inject_lines) + "\n"]] if inject_lines is not None else [],
+             "directed": fam, "cmd_lines": sorted(set(cmds)), "lanes": lanes}
+        ref = directed_reference(m)
+        if any(w for (_, ents, _) in ref for (_, _, w, _) in ents):
+            return m, ref
+    return None
+
+
+def _waiting_iids(rig) -> set:
+    """instance ids of requests sitting in the command manager that have not started (harness-side classification for
+    counters and request selection only; the oracles never use it)"""
+    cm = rig.e._command_manager
+    if cm is None:
+        return set()
+    out = set()
+    for r in list(cm.cmd_executing) + list(cm.cmd_queue.queue):
+        rec = rig.e.tracking.get_record_by_instance_id(r.instance_id)
+        if rec is None:
+            continue
+        names = [s.state_name.value for s in rec.states if s.instance_id == r.instance_id]
+        if names and "started" not in names and not any(x in ("completed", "failed", "cancelled") for x in names):
+            out.add(r.instance_id)
+    return out
+
+
+def _cm_busy(rig) -> bool:
+    cm = rig.e._command_manager
+    return cm is not None and (len(cm.cmd_executing) > 0 or cm.cmd_queue.qsize() > 0)
+
+
+def directed_reference(m):
+    """[(tick, [(cancellable, forcible, waiting, is command item)], command manager busy)] of the run without request"""
+    from opv.rigs import engine_rig as R
+    rig = R.EngineRig(m["text"], long_n=m["long_n"], fail_at=m.get("fail_at", 1))
+    inj = {int(t): s for t, s in m.get("injects", [])}
+    names = set(m.get("cmd_lines", ()))
+    out = []
+    try:
+        rig.start()
+        idle = 0
+        seen_busy = False
+        while rig.k < 110:
+            try:
+                items = rig.e.tracking.get_runlog().items
+            except Exception:
+                break
+            w = _waiting_iids(rig)
+            busy = _cm_busy(rig)
+            out.append((rig.k, [(bool(i.cancellable), bool(i.forcible), i.id in w, i.name in names) for i in items], busy))
+            seen_busy = seen_busy or busy
+            idle = 0 if (busy or not seen_busy) else idle + 1
+            if idle >= 4:
+                break
+            if rig.k in inj:
+                try:
+                    rig.e.inject_code(inj[rig.k])
+                except Exception:
+                    break
+            rig.hw.inputs["FT01"] = m["traj"][rig.k]
+            rig.tick()
+    finally:
+        rig.close()
+    return out
+
+
 def check_case(case, res: Result):
     from opv.rigs import engine_rig as R
     from opv.rigs import cmd_rig as CR
@@ -95,12 +280,18 @@ def check_case(case, res: Result):
     CR.install_schedule_hook()
     CR.REQS.clear()
     kind, at, idx = case["kind"], case["at"], case["idx"]
-    rig = R.EngineRig(case["text"], long_n=case["long_n"])
+    rig = R.EngineRig(case["text"], long_n=case["long_n"], fail_at=case.get("fail_at", 1))
     viol: list[tuple] = []
     judged = False
+    inj = {int(t): s for t, s in case.get("injects", [])}
+    first_running: dict[int, tuple] = {}     # id(Pause/Hold command object) -> (object, first tick at whose end it ran)
 
     def feed():
+        # everything that happens between two ticks apart from the request under test: the scripted reading and (directed
+        # stratum) code injected before this tick
         rig.hw.inputs["FT01"] = case["traj"][min(rig.k, len(case["traj"]) - 1)]
+        if rig.k in inj:
+            rig.e.inject_code(inj[rig.k])
 
     def interp_will_tick():
         e = rig.e
@@ -112,6 +303,10 @@ def check_case(case, res: Result):
         while rig.k < at:
             feed()
             rig.tick()
+            for nm_ in ("Pause", "Hold"):
+                c_ = rig.e.registry.get_running_command(nm_)
+                if c_ is not None:
+                    first_running.setdefault(id(c_), (c_, rig.k))
         try:
             items = rig.e.tracking.get_runlog().items
         except Exception:
@@ -132,6 +327,10 @@ def check_case(case, res: Result):
         newer_instance = rec is not None and rec.last_instance_id != iid
         node_reset = node is not None and state0 == "started" and not node.started
         live = _live(rig.cmdlog)
+        waiting = iid in _waiting_iids(rig)      # its request sits in the command manager and has not started
+        if waiting:
+            res.count(f"waiting_{kind}_requests")
+        intercepted = _newer_waiting_namesake(rig, iid)
         s0 = CR.snapshot(rig)
         n_log0 = len(rig.cmdlog)
         n_tr0 = len(R.TRACE)
@@ -144,6 +343,8 @@ def check_case(case, res: Result):
         if not offered:
             judged = True
             res.count("not_offered_requests")
+            if waiting:
+                res.count(f"waiting_{kind}_not_offered_judged")
             if ok:
                 res.count("not_offered_accepted")
                 fins = [e for e in rig.cmdlog[n_log0:] if e[1] == "fin" and e[3] != iid]
@@ -192,45 +393,81 @@ def check_case(case, res: Result):
                         viol.append(("C12.cancelled_watch_body_started",
                                      f"{descr} accepted, but body line {started[0][2]} ({started[0][3]}) started at tick "
                                      f"{started[0][0]}"))
-            elif kind == "cancel" and isinstance(node, p.EngineCommandNode) and node.instruction_name in ("Pause", "Hold") \
-                    and node.has_argument:
+            elif kind == "cancel" and isinstance(node, p.EngineCommandNode) and node.instruction_name in ("Pause", "Hold"):
+                timed = bool(node.has_argument)
                 judged = True
-                res.count("rule_cancel_pause_hold")
+                res.count("rule_cancel_pause_hold" if timed else "rule_cancel_untimed_pause_hold")
+                if waiting:
+                    res.count("waiting_cancel_accepted")
+                    res.count("waiting_cancel_accepted_pause_hold")
                 nm = node.instruction_name
                 flag = "_runstate_paused" if nm == "Pause" else "_runstate_holding"
                 st_name = "Paused" if nm == "Pause" else "Holding"
                 left_now = not getattr(rig.e, flag)
                 oc = rig.e.registry.get_running_command(nm)
                 other_cmd = oc is not None and oc.instance_id != iid
+                # the tick by which the engine must have left the state, given the commands of this kind that were NOT
+                # cancelled (decided now, from the requests the command manager holds right after the cancel)
+                bound, n_others, why = _state_bound(rig, nm, iid, first_running)
                 in_effect = []
-                for j in range(3):
+                left_at = rig.k if left_now else None
+                left_next = False
+                for j in range(90):
                     feed()
                     rig.tick()
                     cmd = rig.e.registry.get_running_command(nm)
                     if cmd is not None and cmd.instance_id == iid:
                         in_effect.append(rig.k)
+                    if left_at is None and not getattr(rig.e, flag):
+                        left_at = rig.k
                     if j == 0:
                         left_next = rig.state != st_name
+                    if j >= 2 and not _kind_pending(rig, nm):
+                        break       # no command and no request of this kind is left
                 was_running = "internalenginecommandset" in inst_states
                 shared = sum(1 for q_ in CR.REQS if q_[2] == iid) >= 2
-                if in_effect:
+                after = [s.state_name.value for s in rec.states if s.instance_id == iid]
+                after = after[after.index("cancelled") + 1:] if "cancelled" in after else []
+                effect_states = [x for x in after if x in ("started", "internalenginecommandset")]
+                if in_effect or effect_states:
                     # shared: two interpreter paths (stale Watch/Alarm handler, C02 finding) requested the line under one
                     # instance id; the second request re-creates the command after the cancel
                     mech = "C12.two_requests_share_one_instance_id" if shared else \
                         "C12.cancel_before_command_start_does_not_prevent_it" if not_started_yet else \
                         "C12.cancelled_pause_hold_still_running"
-                    viol.append((mech, f"{descr} accepted, but the {nm} command instance {iid[:8]} is running at tick(s) "
-                                 f"{in_effect} (item states at request: {inst_states})"))
-                elif not was_running or other_cmd:
-                    # the state is (also) held by another Pause/Hold command instance, or this one had not begun
-                    res.count("unjudged_pause_hold_state_held_by_other_command")
-                elif not left_now and not left_next:
-                    viol.append(("C12.cancelled_pause_hold_state_not_left",
-                                 f"{descr} accepted, but the engine was still {st_name} right after the call and at the end "
-                                 f"of the next tick"))
+                    viol.append((mech, f"{descr} accepted{' while its request was waiting in the command manager' if waiting else ''}"
+                                 f", but the {nm} command instance {iid[:8]} is running at tick(s) {in_effect[:6]} (item "
+                                 f"states at request: {inst_states}, states recorded after the cancel: {after})"))
+                else:
+                    if waiting:
+                        res.count("waiting_cancel_never_started_judged")
+                    if timed and was_running and not other_cmd and not left_now and not left_next:
+                        viol.append(("C12.cancelled_pause_hold_state_not_left",
+                                     f"{descr} accepted, but the engine was still {st_name} right after the call and at the end "
+                                     f"of the next tick"))
+                    elif bound is None:
+                        # an un-timed Pause/Hold (or one with a duration the harness cannot read) holds the state too
+                        res.count("unjudged_pause_hold_state_held_by_other_command")
+                    elif nm == "Pause" and rig.errors:
+                        res.count("unjudged_pause_state_after_method_error")     # the error pause is not a Pause command
+                    else:
+                        res.count("rule_state_bound")
+                        if n_others:
+                            res.count("rule_state_bound_with_other_holders")
+                            if waiting:
+                                res.count("waiting_cancel_state_bound_judged")
+                        if left_at is None or left_at > bound:
+                            viol.append(("C12.cancelled_pause_hold_state_outlasts_uncancelled_commands",
+                                         f"{descr} accepted{' while its request was waiting' if waiting else ''}; the "
+                                         f"un-cancelled {nm} commands ({why}) justify {st_name} until tick {bound - 2} at most, "
+                                         f"but the engine " + (f"left {st_name} only at tick {left_at}" if left_at is not None
+                                                               else f"was still {st_name} at tick {rig.k}")))
             elif kind == "cancel" and isinstance(node, p.UodCommandNode):
                 judged = True
                 res.count("rule_cancel_uod")
+                if waiting:
+                    res.count("waiting_cancel_accepted")
+                    res.count("waiting_cancel_accepted_uod")
                 was_live = iid in live
                 if was_live:
                     res.count("rule_cancel_uod_live")
@@ -245,11 +482,17 @@ def check_case(case, res: Result):
                 later = [e for e in rig.cmdlog[n_log1:] if e[3] == iid and e[1] in ("init", "exec")]
                 if later:
                     shared = sum(1 for q_ in CR.REQS if q_[2] == iid) >= 2
+                    # intercepted: cancel_instruction looks the executing request up by command NAME (newest first); a
+                    # newer request of the same name that is still waiting is cancelled and dropped in place of the
+                    # addressed one, whose own request stays listed and re-creates its command in the next tick
                     mech = "C12.two_requests_share_one_instance_id" if shared else \
                         "C12.cancel_before_command_start_does_not_prevent_it" if (not was_live and not_started_yet) \
-                        else "C12.cancelled_uod_command_executes_afterwards"
+                        else "C12.cancel_of_running_command_lands_on_newer_waiting_request_of_same_name" \
+                        if (was_live and intercepted) else "C12.cancelled_uod_command_executes_afterwards"
                     viol.append((mech, f"{descr} accepted, but instance {iid[:8]} has {later[0][1]} at tick {later[0][0]} "
                                  f"after the cancel (item states at request: {inst_states})"))
+                elif waiting:
+                    res.count("waiting_cancel_never_started_judged")
             elif kind == "force" and isinstance(node, p.WatchNode):
                 registered = bool(node.interrupt_registered) and node.id in rig.e.interpreter._interrupts_map
                 if in_rep or not registered:
@@ -328,6 +571,57 @@ def check_case(case, res: Result):
         res.violation(mech, msg, case)
 
 
+def _newer_waiting_namesake(rig, iid) -> bool:
+    """the command manager lists, before (= newer than) the request of instance `iid`, a request of the same command
+    name that has not started (classifier only)"""
+    cm = rig.e._command_manager
+    lst = list(cm.cmd_executing) if cm is not None else []
+    pos = [i for i, r in enumerate(lst) if r.instance_id == iid]
+    if not pos:
+        return False
+    w = _waiting_iids(rig)
+    return any(r.name == lst[pos[0]].name and r.instance_id in w and r.instance_id != iid for r in lst[:pos[0]])
+
+
+def _kind_pending(rig, nm) -> bool:
+    cm = rig.e._command_manager
+    if rig.e.registry.get_running_command(nm) is not None:
+        return True
+    return cm is not None and any(r.name == nm for r in list(cm.cmd_executing) + list(cm.cmd_queue.queue))
+
+
+def _state_bound(rig, nm, iid, first_running):
+    """(tick by whose end the engine must have left Paused/Holding | None, number of other holders, text): every
+    un-cancelled timed command of kind `nm` the command manager knows holds the state for ceil(d / interval) + 1 ticks,
+    one after the other (the running one counts from its observed start), plus 2 ticks of slack. None when the state is
+    (also) held by something without a readable duration."""
+    import math
+    import re
+    cm = rig.e._command_manager
+    reqs = [r for r in list(cm.cmd_executing) + list(cm.cmd_queue.queue) if r.name == nm and r.instance_id != iid] \
+        if cm is not None else []
+    for r_ in rig.e.tracking.runtimeinfo.records:
+        if r_.node_class_name == "EngineCommandNode" and r_.name == nm and \
+                any(s.state_name.value == "started" and s.instance_id != iid for s in r_.states):
+            return None, len(reqs), "an un-timed one has started"
+    ticks = []      # one entry per request (two requests may carry one instance id, see two_requests_share_one_instance_id)
+    for r in reqs:
+        mt = re.match(r"^\s*(\d+(?:\.\d+)?)\s*s\s*$", r.arguments or "")
+        if mt is None:
+            return None, len(reqs), f"argument {r.arguments!r}"
+        ticks.append((r.instance_id, math.ceil(float(mt.group(1)) / rig.interval - 1e-6) + 1))
+    run = rig.e.registry.get_running_command(nm)
+    leave = rig.k + 1
+    if run is not None and run.instance_id != iid:
+        own = [x for x in ticks if x[0] == run.instance_id]
+        if not own:
+            return None, len(reqs), "running command without request"
+        ticks.remove(own[0])
+        leave = first_running.get(id(run), (run, rig.k))[1] + own[0][1]
+    leave += sum(n for _, n in ticks)
+    return leave + 2, len(reqs), ", ".join(f"{nm}: {r.arguments}" for r in reqs) or "none"
+
+
 def _being_waited_on(rig, node, newer_instance) -> bool:
     import openpectus.lang.model.ast as p
     if newer_instance or node.completed or not node.started:
@@ -359,6 +653,41 @@ def run_shard(spec):
             for idx, (c, f) in enumerate(flags):
                 for kind, off in (("cancel", c), ("force", f)):
                     if rnd.random() < (spec["p_off"] if off else spec["p_not"]):
+                        check_case({**m, "kind": kind, "at": t, "idx": idx}, res)
+    # directed stratum: cancel at EVERY tick at which a request waits in the command manager, on each waiting item;
+    # cancel/force on the other command items of the window and (sparsely) on everything else
+    rnd = random.Random(spec["seed"] * 7919 + 13)
+    pd = spec.get("p_dir", 0.5)
+    for _ in range(spec.get("directed", 0)):
+        g = None
+        for _try in range(6):
+            res.count("directed_generation_attempts")
+            g = gen_directed(rnd)
+            if g is not None:
+                break
+        if g is None:
+            continue
+        m, ref = g
+        res.count("directed_methods_with_waiting_requests")
+        res.count(f"directed_methods_{m['directed']}")
+        for ln in set(m["lanes"]) - {"watch"}:
+            res.count(f"directed_methods_lane_{ln}")
+        if any(sum(1 for e in ents if e[2]) >= 2 for (_, ents, _) in ref):
+            res.count("directed_methods_two_requests_waiting_at_once")
+        busy = [t for (t, _, b) in ref if b]
+        lo, hi = (min(busy) - 2, min(max(busy) + 1, min(busy) + 50)) if busy else (0, -1)
+        for (t, ents, _) in ref:
+            if not lo <= t <= hi:
+                continue
+            for idx, (c, f, w, is_cmd) in enumerate(ents):
+                for kind, off in (("cancel", c), ("force", f)):
+                    if w:
+                        pr = 1.0 if kind == "cancel" else pd
+                    elif is_cmd:
+                        pr = pd if off else pd * 0.3
+                    else:
+                        pr = pd * (0.08 if off else 0.03)
+                    if rnd.random() < pr:
                         check_case({**m, "kind": kind, "at": t, "idx": idx}, res)
     return res
 
